@@ -45,6 +45,21 @@ def gen_config(rng, tier, flavor="db"):
     }
     if space < 2:
         cfg["n_alleles"][0] = 2
+    if rng.random() < (0.015 if flavor != "trace" else 0.0):
+        # rare large shapes: pools / high ploidy with many known haplotypes (index arithmetic, cache keys)
+        cfg["ploidy"] = rng.choice([8, 10, 12, 32])
+        if cfg["ploidy"] == 32:
+            cfg["n_alleles"] = [2, 2, 2]
+            cfg["n_haps"] = rng.choice([4, 5, 6, 8])
+        else:
+            cfg["n_alleles"] = [2] * rng.choice([6, 7])
+            cfg["n_haps"] = rng.choice([20, 34, 40, 66, 72])
+        cfg["n_reads"] = rng.choice([1, 2, 3])
+        cfg["steps"] = 2
+        cfg["chains"] = 1
+        cfg["big"] = True
+        cfg["cache"] = True
+        cfg["entry"] = rng.choice(["fit", "sampler", "steps"])
     return cfg
 
 
@@ -119,6 +134,7 @@ class CallSim:
         self.in_probe = 0
         self._lord = {}
         self.user_cache = None
+        self.seen = set()
 
     def viol(self, cls, msg, **detail):
         raise Violation(cls, msg, step=self.ctx.step, detail=detail)
@@ -217,17 +233,19 @@ class CallSim:
         return self.result
 
     def audit_cache(self, cache):
-        gens = ref.all_genotypes(len(self.haps), self.cfg["ploidy"])
-        order = ref.vcf_order(gens)
-        gens = [gens[i] for i in order]
-        for key, val in cache.items():
-            if key == -1:
-                continue
-            g = gens[int(key)]
-            fresh = self.fresh_llk(self.np.array(g, dtype=self.np.int64))
-            if not rel_close(float(val), fresh):
-                self.viol("cache_entry_wrong", "call llk cache holds %r under genotype index %d = %r, recomputed %r" % (float(val), key, g, fresh))
+        """Every value the cache serves equals the freshly computed one - queried through the real
+        cached function for every genotype the run looked up (no assumption about the key scheme)."""
+        for g in sorted(self.seen):
+            ga = self.np.array(g, dtype=self.np.int64)
+            self.in_probe += 1
+            try:
+                val = float(self.real["cached"](self.reads, self.counts, self.haps, ga, cache))
+            finally:
+                self.in_probe -= 1
+            fresh = self.fresh_llk(ga)
             self.ctx.counters.inc("cache_entries_audited")
+            if not rel_close(val, fresh):
+                self.viol("cache_entry_wrong", "call llk cache serves %r for genotype %r, recomputed %r" % (val, list(g), fresh))
 
     # -- seams --------------------------------------------------------------
     def w_sampler(self, *args, **kwargs):
@@ -345,9 +363,12 @@ class CallSim:
             nh = len(self.haps)
             cur = int(x[k])
             lx = self.lord(x)
-            for al in range(nh):
-                if al == cur:
-                    continue
+            targets = [al for al in range(nh) if al != cur]
+            if len(targets) > 8:
+                # large haplotype sets: reverse-probe a deterministic sample of the proposals
+                r = _random.Random(repr((self.ctx.step, k, cur)))
+                targets = sorted(r.sample(targets, 6))
+            for al in targets:
                 y = x.copy()
                 y[k] = al
                 ly = self.lord(y)
@@ -395,6 +416,8 @@ class CallSim:
     def w_cached(self, *args, **kwargs):
         a = bind(self.real["cached"], args, kwargs)
         out = self.real["cached"](**a)
+        if a["cache"] is not None and not self.in_probe:
+            self.seen.add(tuple(sorted(int(v) for v in a["genotype_alleles"])))
         if "cache" in self.checks and not self.in_probe:
             fresh = self.fresh_llk(a["genotype_alleles"])
             if a["cache"] is not None:
@@ -407,6 +430,8 @@ class CallSim:
     # -- premise: call-exact's distribution is the reference posterior ------
     def check_exact_premise(self):
         np = self.np
+        if self.cfg.get("big"):
+            return  # the genotype space is too large to enumerate; covered by the small shapes
         cexact = self.m["cexact"]
         pl, nh = self.cfg["ploidy"], len(self.haps)
         gens, post = ref.exact_call_posterior(self.reads_l, self.counts_l, self.haps_l, pl, self.fl, self.F)
